@@ -1108,6 +1108,163 @@ def run_ciq(ctx, drv, cfg, rng, replay_only=None):
         _state["worst_ciq"] = max(_state.get("worst_ciq", 0.0), cmp_.worst)
 
 
+# ------------------------------------------------------------------ CIQ: the tolerance the user set must be in force
+
+CG_FLOOR = 1e-5     # measured accuracy floor of linear_operator's linear_cg (true relative residual; DESIGN §2.3)
+
+
+class CgSpy:
+    """Wraps `linear_cg` as imported by gpytorch/variational/ciq_variational_strategy.py (the only iterative solve gpytorch
+    itself issues in a variational strategy): records the tolerance that REACHES the primitive (an omitted argument means
+    `settings.cg_tolerance` at call time) and the true relative residual of what it returned."""
+
+    def __init__(self):
+        import gpytorch.variational.ciq_variational_strategy as mod
+        self.mod, self.orig, self.calls = mod, mod.linear_cg, []
+
+    def __enter__(self):
+        import gpytorch
+
+        def spy(matmul_closure, rhs, *a, **k):
+            asked = k.get("tolerance")
+            eff = gpytorch.settings.cg_tolerance.value() if asked is None else asked
+            out = self.orig(matmul_closure, rhs, *a, **k)
+            res = (matmul_closure(out) - rhs).norm(dim=-2) / rhs.norm(dim=-2).clamp_min(1e-300)
+            self.calls.append({"tolerance_argument": asked, "tolerance_effective": float(eff),
+                               "true_rel_residual": float(res.max())})
+            return out
+        self.mod.linear_cg = spy
+        return self
+
+    def __exit__(self, *exc):
+        self.mod.linear_cg = self.orig
+
+
+def run_ciq_tol(ctx, drv, cfg, rng, replay_only=None):
+    """Cells in which the USER-VISIBLE tolerance settings prescribe tight accuracy for the iterative solves of
+    CiqVariationalStrategy (NGD path: `linear_cg` with the variational precision; both paths: contour-integral quadrature
+    at tight `minres_tolerance` / `num_contour_quadrature`), M = 16..40, variational precision of condition ~1e4:
+      eval mode:  eval_cg_tolerance = 1e-10, cg_tolerance at its default;   train mode: the reverse.
+    Judged (i) differentially, as C01 does for exact GPs: the output must be the one obtained with BOTH tolerances tight
+    (same solver, same tolerance in force -> identical to 1e-9) — otherwise the tolerance the user set is not in force;
+    (ii) against the dense closed form at the accuracy the tolerance in force prescribes, max(tol, CG_FLOOR) x the
+    amplification |θ|·|b|/λmin(P) (mean) resp. |b|²/λmin(P) (variance) of a residual of that size.  The reference is a
+    float64 dense computation (symmetric eigendecomposition): at M = 40 the exact rational pipeline is outside the time
+    budget, and the prescribed accuracy (>= 1e-5 x amplification) is far above float64 rounding (1e-13)."""
+    import contextlib
+    import gpytorch
+    import numpy as np
+    import torch
+    torch.manual_seed(rng.torch_seed())
+    M, n, d = cfg["M"], cfg["n"], cfg["d"]
+    ngd = cfg["dist"] == "NaturalVariationalDistribution"
+    Z = spread_points([M, d], rng, lo=-3.5, hi=3.5, min_dist=0.55)
+    x = spread_points([n, d], rng, lo=-3.5, hi=3.5, min_dist=0.2)
+    model, dist = make_gp(dict(cfg, kb=[], strategy="CiqVariationalStrategy"), Z, cfg["dist"], [])
+    vs = model.variational_strategy
+    randomize_hypers(model, rng)
+    model.covar_module.base_kernel.lengthscale = rng.uniform(0.3, 0.5)      # Kzz stays well conditioned (CIQ converges)
+    vs.variational_params_initialized.fill_(1)
+    # whitened q(u) = N(mw, P⁻¹) with an ill-conditioned precision, as after natural-gradient training
+    U, _ = torch.linalg.qr(torch.randn(M, M, dtype=torch.float64))
+    lam = torch.logspace(-1, math.log10(cfg["prec_cond"]) - 1, M, dtype=torch.float64)
+    P = U @ torch.diag(lam) @ U.T
+    P = (P + P.T) / 2
+    Sm = torch.linalg.inv(P)
+    Sm = (Sm + Sm.T) / 2
+    mw = torch.randn(M, dtype=torch.float64)
+    with torch.no_grad():
+        if ngd:
+            dist.natural_mat.copy_(P.mul(-0.5))
+            dist.natural_vec.copy_(P @ mw)
+        else:
+            randomize_dist(dist, rng)       # (no CG solve with q(u) on this path; only the contour-integral quadrature)
+    eps = float(jitter_of_args(cfg.get("jitter")))
+    with torch.no_grad():
+        full = model.forward(torch.cat([Z, x], dim=-2))
+        Kf = full.lazy_covariance_matrix.to_dense()
+        Kzz, Kzx, Kxx = Kf[:M, :M] + eps * torch.eye(M, dtype=Kf.dtype), Kf[:M, M:], Kf[M:, M:]
+        w, V = torch.linalg.eigh((Kzz + Kzz.T) / 2)
+        B = (V @ torch.diag(w.rsqrt()) @ V.T) @ Kzx                        # Kzz^{-1/2} Kzx
+        if not ngd:
+            with torch.no_grad():
+                qd = dist()
+                mw, Sm = qd.mean.clone(), qd.covariance_matrix.clone()     # (the lower-triangle mask is part of q(u))
+        ref_mean = full.mean[M:] + B.T @ mw
+        # the code adds jitter_val to Kxx once on the NGD branch and twice on the other one (mirrored, see run_ciq)
+        ref_var = Kxx.diagonal() + (1 if ngd else 2) * eps - (B * B).sum(0) + ((Sm @ B) * B).sum(0)
+    kz = float(w.max() / w.min())
+    if kz > 1e4:
+        ctx.count("discarded_ill_conditioned")
+        return
+    lmin = float(torch.linalg.eigvalsh(P).min()) if ngd else 1.0
+    theta, bn = float((P @ mw).norm()), float(B.norm(dim=0).max())
+    amp = {"mean": theta * bn / lmin, "variance": bn * bn / lmin}
+    S_ = gpytorch.settings
+    VARIANTS = {"both-tight": (1e-10, 1e-10), "eval-only": (None, 1e-10), "cg-only": (1e-10, None), "both-loose": (1.0, 1.0)}
+
+    def observe(mode, variant):
+        cg, ev = VARIANTS[variant]
+        st = contextlib.ExitStack()
+        for cm in (S_.num_contour_quadrature(60), S_.minres_tolerance(1e-14), S_.max_cg_iterations(4000),
+                   S_.max_lanczos_quadrature_iterations(200)):
+            st.enter_context(cm)
+        if cg is not None:
+            st.enter_context(S_.cg_tolerance(cg))
+        if ev is not None:
+            st.enter_context(S_.eval_cg_tolerance(ev))
+        with st, CgSpy() as spy:
+            in_force = min(S_.cg_tolerance.value(), S_.eval_cg_tolerance.value())
+            model.train(mode == "train")
+            with torch.no_grad():
+                o = model(x)
+                return o.mean.detach().clone(), o.variance.detach().clone(), spy.calls, in_force
+
+    key = f"CiqVariationalStrategy:{cfg['dist'].replace('VariationalDistribution', '')}"
+    for mode, user in (("eval", "eval-only"), ("train", "cg-only")):
+        if replay_only is not None and list(replay_only) != [mode]:
+            continue
+        desc = f"CiqVariationalStrategy/{cfg['dist']} tolerance cell M={M} n={n} d={d} cond(P)={cfg['prec_cond']:g} " \
+               f"mode={mode} (cg_tolerance, eval_cg_tolerance)={VARIANTS[user]}"
+        replay = {"cfg": cfg, "idx": [mode], "runner": "ciq_tol"}
+        ref = observe(mode, "both-tight")
+        got = observe(mode, user)
+        loose = observe(mode, "both-loose")
+        sens = max(float((loose[0] - ref[0]).abs().max()), float((loose[1] - ref[1]).abs().max()))
+        asked = [c_["tolerance_effective"] for c_ in got[2]]
+        spy_txt = f"tolerance reaching linear_cg: {asked or 'no linear_cg call'}, prescribed by the settings: {got[3]:g}"
+        for what, a, b_ in (("mean", got[0], ref[0]), ("variance", got[1], ref[1])):
+            err = float((a - b_).abs().max())
+            tol = 1e-9 * float(b_.abs().max()) + 1e-13
+            if not err <= tol:
+                ctx.fail(f"{key}/cg-tolerance:{mode}.{what}:tolerance-not-in-force",
+                         f"{desc}: {mode}.{what} differs by {err:.3e} (tol {tol:.1e}) from the output with both tolerances "
+                         f"at 1e-10 — the tolerance the user set is not the one the solve ran at ({spy_txt})",
+                         dict(replay, observable=f"{mode}.{what}", spy=got[2]))
+        # closed form at the accuracy the tolerance in force prescribes
+        rho = max([c_["true_rel_residual"] for c_ in got[2]] + [0.0])
+        for what, a, exact in (("mean", got[0], ref_mean), ("variance", got[1], ref_var)):
+            err = float((a - exact).abs().max())
+            scale = max(1.0, float(exact.abs().max()))
+            tol = (max(got[3], CG_FLOOR) * amp[what] if ngd else 0.0) + 1e-7 * scale
+            _state["worst_ciq_tol"] = max(_state.get("worst_ciq_tol", 0.0), err / tol)
+            if not err <= tol:
+                ctx.fail(f"{key}/tolerance-cell:{mode}.{what}",
+                         f"{desc}: {mode}.{what} differs from the closed form by {err:.3e}; the tolerance in force "
+                         f"({got[3]:g}) prescribes {tol:.3e} ({spy_txt}; true relative residual of the solve {rho:.1e})",
+                         dict(replay, observable=f"{mode}.{what}", spy=got[2]))
+        if ngd and rho > 100 * max(min(asked + [1.0]), 1e-10) and not _state.get("cg_floor_noted"):
+            _state["cg_floor_noted"] = True
+            ctx.assumption(f"linear_cg asked for tolerance {min(asked + [1.0]):g} returned a solve with true relative residual "
+                           f"{rho:.1e} (ill-conditioned variational precision, cond {cfg['prec_cond']:g}): linear_operator's "
+                           f"accuracy floor, allowed for as CG_FLOOR = {CG_FLOOR:g} in the tolerance cells")
+        ctx.case(desc + f" seed={C.seed()}", nontrivial=(sens > 1e-6) if ngd else True,
+                 sample={"case": desc, "cond_Kzz": kz, "sensitivity(tight vs loose)": sens, "spy": got[2]})
+        ctx.count("cases:CiqVariationalStrategy[tolerance-cell]")
+        if sens > 1e-6:
+            ctx.count("tolerance-cells:tolerance-matters")
+
+
 # ------------------------------------------------------------------ batch decoupled
 
 def run_batch_decoupled(ctx, drv, cfg, rng, replay_only=None):
@@ -1905,6 +2062,11 @@ def boundary_configs(ctx):
         ("multitask_batched", {"kind": "lmc", "latent_dim": -2, "Q": 2, "B": 2, "T": 2, "base": "VariationalStrategy",
                                "dist": DISTS[0], "M": 2, "n": 2, "d": 1, "z_batched": True, "k_batched": False}),
     ]
+    # ---- (c) round 4: the user-visible tolerance settings must be in force in the iterative solves (CIQ, both paths)
+    for k_, dist in enumerate([DISTS[3]] * (3 if q else 8) + [DISTS[0], DISTS[1]] * (1 if q else 2)):
+        out.append(("ciq_tol", {"dist": dist, "M": rng.randint(16, 40), "n": rng.randint(3, 6), "d": 2,
+                                "kernel": rng.choice(["rbf", "matern"]), "mean": "const", "jitter": None,
+                                "prec_cond": [1e4, 1e4, 1e3, 1e5][k_ % 4]}))
     for wi, (runner, wcfg) in enumerate(wrappers):
         pair += 1
         how, pre = hows[wi % len(hows)]
@@ -1952,6 +2114,7 @@ def correspondence(ctx):
         drv.close()
     ctx.notes["worst_relative_error"] = _state.get("worst", 0.0)
     ctx.notes["worst_relative_error_ciq"] = _state.get("worst_ciq", 0.0)
+    ctx.notes["worst_error_over_tolerance_ciq_tolerance_cells"] = _state.get("worst_ciq_tol", 0.0)
     ctx.notes["driver_requests"] = drv.n
 
 
@@ -2003,5 +2166,5 @@ def replay(ctx, payload):
     return not ctx.failures
 
 
-RUNNERS = {"basic": run_basic, "ciq": run_ciq, "batch_decoupled": run_batch_decoupled, "orth": run_orth,
+RUNNERS = {"basic": run_basic, "ciq": run_ciq, "ciq_tol": run_ciq_tol, "batch_decoupled": run_batch_decoupled, "orth": run_orth,
            "grid": run_grid, "multitask": run_multitask, "multitask_batched": run_multitask_batched}
